@@ -58,6 +58,27 @@ Theorem C02_read_io : ∀ rsv bbs m C,
 Proof. exact read_io. Qed.
 Print Assumptions C02_read_io.
 
+(* (4, partial) read_denotes, one statement, buffer case: `assign lv = e` where the node returned for e is not one of the reader's
+   own gates (identifier, constant, parenthesised, cancelled parity pair) and lv is absent or an undriven free node:
+   lv carries the value of e under every consistent valuation of the new circuit.
+   Missing for C02_read_denotes_full: (a) the relabel case - needs, by one more induction over the tree, that a gate
+   returned by c_cond is fresh, has no fan-out and does not occur in its own fan-in, then consistency transfers along the
+   renaming r -> lv; (b) the fold over the items with the set of nodes no later statement touches (defined nets, inner
+   gates), using C02_prim_instance_exact for instances; (c) the converse direction (extending a model of the module to the
+   synthetic nodes) *)
+Theorem C02_assign_buffer_partial : ∀ k st lv e st1 r st',
+  c_cond k st e = Ok (st1, r) → r ∉ st1.2 → assignment k st1 lv r = Ok st' →
+  ties_ok k st.1 → lv ∉ [k_t0 k; k_t1 k; k_tx k] → lv ∈ k_rsv k →
+  (∀ i, st.1 !! lv = Some i → n_fi i = ∅ ∧ is_free i = true) →
+  ∀ v, consistent st'.1 v → v lv = sem_cond v (v (k_tx k)) e.
+Proof. exact assign_buffer_correct. Qed.
+Print Assumptions C02_assign_buffer_partial.
+Theorem C02_prim_instance_exact : ∀ k t g nm n fi g', prim_instance k t g (nm, CPos (n :: fi)) = Ok g' → NoDup fi → fi ≠ [] →
+  g' !! n = Some (mk_node t false (fanin g n ∪ list_to_set fi)) ∧
+  ∀ x, x ≠ n → g' !! x = g !! x ∨ (g !! x = None ∧ x ∈ fi ∧ g' !! x = Some (mk_node Buf false ∅)).
+Proof. exact prim_instance_exact. Qed.
+Print Assumptions C02_prim_instance_exact.
+
 (* full statement for whole modules; not proved, decided per generated module by Run_C02.holds (which evaluates the
    same guard in_subset and the executable form `denotes` of the conclusion) *)
 Definition C02_read_denotes_full : Prop := ∀ rsv bbs m,
